@@ -168,6 +168,7 @@ func (h *Harness) Step(a Action) []Mismatch {
 	exps := map[string]*Exp{}
 	var altClose []string // clients for which "closed instead of answered" is acceptable
 	var either []string   // connections whose keep-alive is in the grey zone between K and 1.5 K
+	var mayExs []*q2ex    // QoS 2 exchanges that may (but need not yet) be handed on by this action
 	m := h.M
 	if a.Client != "" && a.Kind != "advance" {
 		h.touch(a.Client)
@@ -187,7 +188,7 @@ func (h *Harness) Step(a Action) []Mismatch {
 		if old := m.conns[a.Client]; old != nil && old.will != nil {
 			h.oldWills = append(h.oldWills, old.will)
 		}
-		nc := &mconn{name: a.Client, cid: a.Opts.ClientID, clean: a.Opts.Clean, will: a.Opts.Will, open: true, keepAlive: a.Opts.KeepAlive, qos2in: map[uint16]*refcodec.Packet{}, lastRecv: h.Now}
+		nc := &mconn{name: a.Client, cid: a.Opts.ClientID, clean: a.Opts.Clean, will: a.Opts.Will, open: true, keepAlive: a.Opts.KeepAlive, qos2in: map[uint16]*q2ex{}, lastRecv: h.Now}
 		m.conns[a.Client] = nc
 		e := exp(exps, a.Client)
 		e.Comp = "acks"
@@ -278,7 +279,7 @@ func (h *Harness) Step(a Action) []Mismatch {
 			e.Desc = "answer to PUBLISH QoS 2"
 			e.Must = []*refcodec.Packet{{Type: refcodec.PUBREC, ID: a.ID}}
 			if _, dup := mc.qos2in[a.ID]; !dup {
-				mc.qos2in[a.ID] = p
+				mc.qos2in[a.ID] = &q2ex{pkt: p}
 				mc.qos2order = append(mc.qos2order, a.ID)
 			}
 		}
@@ -288,18 +289,28 @@ func (h *Harness) Step(a Action) []Mismatch {
 		e.Comp = "acks"
 		e.Desc = "answer to PUBREL"
 		e.Must = []*refcodec.Packet{{Type: refcodec.PUBCOMP, ID: a.ID}}
-		if p, ok := mc.qos2in[a.ID]; ok {
-			// histories keep at most one exchange open per connection unless a
-			// property-specific oracle handles the queueing (C02)
-			delete(mc.qos2in, a.ID)
-			for i, id := range mc.qos2order {
-				if id == a.ID {
-					mc.qos2order = append(mc.qos2order[:i], mc.qos2order[i+1:]...)
-					break
+		if ex, ok := mc.qos2in[a.ID]; ok && !ex.released {
+			ex.released = true
+			// the queue of exchanges is a FIFO: an exchange must be handed on once
+			// its PUBREL and those of all exchanges opened earlier are processed; it
+			// may be handed on as soon as its own PUBREL is (never before)
+			for len(mc.qos2order) > 0 && mc.qos2in[mc.qos2order[0]].released {
+				hd := mc.qos2in[mc.qos2order[0]]
+				delete(mc.qos2in, mc.qos2order[0])
+				mc.qos2order = mc.qos2order[1:]
+				if !hd.delivered {
+					m.applyRetain(string(hd.pkt.Topic), string(hd.pkt.Payload), 2, hd.pkt.Retain)
+					addDeliveries(exps, m.fanout("route", string(hd.pkt.Topic), string(hd.pkt.Payload), 2, ""))
 				}
 			}
-			m.applyRetain(string(p.Topic), string(p.Payload), 2, p.Retain)
-			addDeliveries(exps, m.fanout("route", string(p.Topic), string(p.Payload), 2, ""))
+			if _, still := mc.qos2in[a.ID]; still {
+				for name, d := range m.fanout("route", string(ex.pkt.Topic), string(ex.pkt.Payload), 2, "") {
+					d.Min = 0
+					d.Tag = ex
+					addDeliveries(exps, map[string]Delivery{name: d})
+				}
+				mayExs = append(mayExs, ex)
+			}
 		}
 	case "ping":
 		rc.Send(&refcodec.Packet{Type: refcodec.PINGREQ})
@@ -358,7 +369,7 @@ func (h *Harness) Step(a Action) []Mismatch {
 		name := a.Client
 		c.OnSend = func() { h.touch(name) }
 		c.SendRaw(a.Raw)
-		nc := &mconn{name: a.Client, open: true, qos2in: map[uint16]*refcodec.Packet{}, lastRecv: h.Now, dialed: h.Now}
+		nc := &mconn{name: a.Client, open: true, qos2in: map[uint16]*q2ex{}, lastRecv: h.Now, dialed: h.Now}
 		m.conns[a.Client] = nc
 		e := exp(exps, a.Client)
 		e.Comp = "connect"
@@ -400,6 +411,13 @@ func (h *Harness) Step(a Action) []Mismatch {
 		default:
 			return []Mismatch{{"harness", "connectraw cannot expect " + a.Expect}}
 		}
+	case "halfping2":
+		// the second byte of a PINGREQ whose first byte was sent earlier
+		rc.SendRaw([]byte{0x00})
+		e := exp(exps, a.Client)
+		e.Comp = "acks"
+		e.Desc = "answer to PINGREQ sent in two pieces"
+		e.Must = []*refcodec.Packet{{Type: refcodec.PINGRESP}}
 	case "cutraw":
 		rc.Cut()
 		if mc != nil {
@@ -484,7 +502,18 @@ func (h *Harness) Step(a Action) []Mismatch {
 			addDeliveries(exps, h.endConn(m.conns[name], true))
 		}
 	}
-	return h.compare(exps)
+	mm := h.compare(exps)
+	for _, ex := range mayExs {
+		for _, e := range exps {
+			for _, d := range e.Deliveries {
+				if d.Tag == ex && d.Got > 0 && !ex.delivered {
+					ex.delivered = true
+					m.applyRetain(string(ex.pkt.Topic), string(ex.pkt.Payload), 2, ex.pkt.Retain)
+				}
+			}
+		}
+	}
+	return mm
 }
 
 func hasType(ps []*refcodec.Packet, t byte) bool {
